@@ -773,13 +773,29 @@ def do_step(w, ev):
                     w.early.fn = w.fn
                 if w.farmer is not None:
                     w.farmer.fn = w.fn
+            elif a == "regress_fn":
+                # the old (failing) function is back in the session's objects; workers see it after a re-sow
+                w.fn = make_fn(w.failpath, tuple(w.names), w.mode, 1, w.variant.get("exc_kind", "value"), w.np_values, w.rsc)
+                w.crop.fn = w.fn
+                if getattr(w, "early", None) is not None:
+                    w.early.fn = w.fn
+                if w.farmer is not None:
+                    w.farmer.fn = w.fn
             elif a == "direct_harvest":
                 # other points (every argument = 9, then 8), harvested by the session's own Harvester object
                 w.n_direct = getattr(w, "n_direct", 0) + 1
                 val = 10 - w.n_direct
                 if w.farmer is None:
                     w.farmer = w.make_farmer()
-                w.farmer.harvest_combos({nm: [w.val(val)] for nm in w.names}, verbosity=0)
+                kw_ = {}
+                if (w.variant.get("direct_unsynced") and w.cfg["cause"] == "none" and not w.memory_only
+                        and w.crop is None          # (before the sow: the farmer pickled into the crop then carries the points)
+                        and not os.path.exists(w.data_file())
+                        and not any(e_["a"] == "reload" and not e_["args"][0] for e_ in w.case["hist"])):
+                    # nothing on disk yet: the points stay in the Harvester's memory (and travel with the pickled farmer)
+                    # until the first synced write, which must contain them
+                    kw_["sync"] = False
+                w.farmer.harvest_combos({nm: [w.val(val)] for nm in w.names}, verbosity=0, **kw_)
             elif a == "change_const":
                 w.kver = 1
                 r = w.farmer if w.farmer_kind == "runner" else w.farmer.runner
@@ -820,7 +836,8 @@ def do_step(w, ev):
                 if c == "save":
                     os.makedirs(w.data_dir, exist_ok=True)
                 elif c == "merge":
-                    w.overwrite = True
+                    # either policy resolves the conflict: keep the new value, or keep the old one
+                    w.overwrite = False if w.variant.get("merge_fix_false") else True
                 elif c == "build":
                     w.new_handle(from_disk=False)
             elif a == "reap":
@@ -1017,7 +1034,7 @@ def default_variants(case, idx):
              resources=(k % 3 != 1), path_words=(k % 4 == 1), no_autoload=(k % 4 in (1, 3)), observer_fresh=(k % 4 in (0, 1)),
              bare_case_dict=(k % 2 == 0), cases_combos_rev=(k % 4 == 2), early_resow=(k % 6 == 0),
              ids_spelling=["tuple", "gen", "list", "iter", "tuple"][k % 5], reap_wait=(k % 3 == 0), sibling=(k % 2 == 1), rel_data=(k % 4 == 2),
-             bool_attrs=(k % 3 == 1), stray_tmp=(k % 2 == 0))
+             bool_attrs=(k % 3 == 1), stray_tmp=(k % 2 == 0), direct_unsynced=(k % 2 == 1), merge_fix_false=(k % 2 == 0))
     if cfg["farmer"] == "none":
         v["result"] = ["scalar", "xy", "array", "str", "bool"][k % 5]
     else:
@@ -1066,6 +1083,8 @@ def drive(rep, runs, claims=None, variants=default_variants):
             for c in e.cases:
                 seen.setdefault(common.stable_hash(c), c)
             cases = list(seen.values())
+        if run.get("filter"):
+            cases = [c for c in cases if run["filter"](c)]
         cap = run.get("sample") or (4 * run["num"] if run["mode"] == "sim" else None)
         if cap and len(cases) > cap:
             # (the simulator evaluates the emitting invariant on every successor it generates, not only on the chosen path)
